@@ -47,11 +47,15 @@ def run_C16(ctx):
 
 
 def run_C19(ctx):
+    if ctx.tier == "thorough":
+        run_model(ctx, "MC_Lattice", workers=NCPU)
     drive_and_validate(ctx, [{"driver": "C19", "n": sz(ctx, 1600, 60000), "probes": 32},
                              {"driver": "C19L", "n": 32 if ctx.tier == "quick" else 640, "probes": 12}])
 
 
 def run_C17(ctx):
+    if ctx.tier == "thorough":
+        run_model(ctx, "MC_Lattice", workers=NCPU)
     drive_and_validate(ctx, [{"driver": "C17", "n": sz(ctx, 1600, 60000), "probes": 32}])
 
 
